@@ -136,6 +136,10 @@ def open_close_controlpoints(case, params):
     o = _obj(case)
     if o is None or case.get('op') != 'open_close' or 'control point' not in case.get('what', ''):
         return False
+    # only the behaviour of the code as transcribed in Model/Periodic.v is the recorded defect: the implementation's
+    # result must coincide with the model's, and the failure must be the L2 round-trip statement itself
+    if not case.get('what', '').startswith('L2:') or not case.get('impl_matches_transcription'):
+        return False
     b = o['bases'][case['direction']]
     return b['periodic'] >= 1
 
